@@ -1,4 +1,5 @@
 import Pfst.LinksSwapLemmas
+import Pfst.SetPosLemmas
 
 /-!
 # C02 — an edited tree is observationally identical to a fresh parse of its own source
@@ -793,6 +794,75 @@ theorem view_ops_valid (v : View) (op : VOp) (lb la : Nat) (h : natural v op lb 
       (by_cases h1 : s > lb <;> by_cases h2 : start > s <;> by_cases h3 : start > lb <;>
         simp [h1, h2, h3] at h ⊢ <;> omega)
 
+/-! ### `_set_end_pos` / `_set_start_pos` (model `Pfst/SetPos.lean`) -/
+section SetPos
+open Pfst.SetPos
+
+/-- **setPos_touches_changed**: every node of the parent chain whose position `_set_end_pos` / `_set_start_pos` changed
+had its cache cleared (so no cached `loc` / `bloc` / `pars` of a node whose end moved survives). Any chain, any old-
+position guard. -/
+theorem setPos_touches_changed (new : Int × Int) (old : Option (Int × Int)) (chain : List Link) :
+    ∀ i (h : i < chain.length),
+      ((setPos new old chain).1[i]'(by rw [setPos_length]; exact h)) ≠ chain[i] →
+      chain[i].id ∈ (setPos new old chain).2 := by
+  intro i h hne
+  obtain ⟨k, hk, h1, h2, _⟩ := setPos_prefix new old chain
+  have hlen : ((chain.take k).map (write new)).length = k := by simp; omega
+  by_cases hik : i < k
+  · rw [h1]
+    have : chain[i] ∈ chain.take k := by
+      rw [List.mem_take_iff_getElem]
+      exact ⟨i, by omega, rfl⟩
+    exact List.mem_map_of_mem this
+  · exfalso
+    apply hne
+    have hge : k ≤ i := by omega
+    simp only [h2]
+    rw [List.getElem_append_right (by rw [hlen]; exact hge)]
+    simp only [hlen, List.getElem_drop]
+    congr 1
+    omega
+
+/-- **setPos_written**: without the old-position guard the node itself is always written and touched: its position (if
+it has one) is the new position afterwards. -/
+theorem setPos_written (new : Int × Int) (l : Link) (rest : List Link) :
+    ((setPos new none (l :: rest)).1.head?).map (·.pos) = some (l.pos.map (fun _ => new)) ∧
+    l.id ∈ (setPos new none (l :: rest)).2 := by
+  simp only [setPos, blocked_none, Bool.false_eq_true, if_false]
+  split <;> simp [write]
+
+/-- **setPos_guard**: with the old-position guard, every node that was written had either no location or exactly the
+expected old position. -/
+theorem setPos_guard (new o : Int × Int) (chain : List Link) :
+    ∃ k, (setPos new (some o) chain).2 = (chain.take k).map (·.id) ∧
+      ∀ l ∈ chain.take k, l.pos = none ∨ l.pos = some o := by
+  obtain ⟨k, _, h1, _, h3⟩ := setPos_prefix new (some o) chain
+  refine ⟨k, h1, fun l hl => ?_⟩
+  have := h3 l hl
+  cases hp : l.pos with
+  | none => exact Or.inl rfl
+  | some e =>
+    right
+    simp only [blocked, hp, bne_eq_false_iff_eq] at this
+    rw [this]
+
+/-- **setPos_idempotent**: repeating the unguarded call changes nothing more. -/
+theorem setPos_idempotent (new : Int × Int) : ∀ chain : List Link,
+    setPos new none (setPos new none chain).1 = setPos new none chain
+  | [] => rfl
+  | l :: rest => by
+    simp only [setPos, blocked_none, Bool.false_eq_true, if_false]
+    by_cases hs : (rest.isEmpty || l.hasSib) = true
+    · simp only [hs, if_true, setPos, blocked_none, Bool.false_eq_true, if_false, write_hasSib, write_write, write_id]
+    · simp only [hs, Bool.false_eq_true, if_false, setPos, blocked_none, write_hasSib, write_write, write_id]
+      have he : (setPos new none rest).1.isEmpty = rest.isEmpty := by
+        have hl := setPos_length new none rest
+        generalize (setPos new none rest).1 = q at hl
+        cases q <;> cases rest <;> simp_all
+      simp only [he, hs, Bool.false_eq_true, if_false, setPos_idempotent new rest]
+
+end SetPos
+
 /-! ### non-vacuity -/
 
 private def fld (n : String) (i : Option Nat := none) : Option Fld := some ⟨n, i⟩
@@ -876,6 +946,15 @@ example : LinkInv (setAst s1 0 (.mk 30 "Module" none [ .mk 31 "Pass" (fld "body"
 example : ¬ LinkInv { s1 with σ := { s1.σ with fst := upd s1.σ.fst 4 { s1.σ.fst 4 with parent := some 1 } } } := by
   unfold LinkInv; decide
 
+-- `_set_end_pos` up a chain Name(7) < Call(6) < Expr(5) < If(2, has a next sibling) < Module(0): the If is the last one
+-- written, the Module is not reached; with a guard that the Call does not meet the walk stops before it
+private def chain0 : List Pfst.SetPos.Link :=
+  [⟨7, some (3, 9), false⟩, ⟨6, some (3, 9), false⟩, ⟨5, some (3, 9), false⟩, ⟨2, some (3, 9), true⟩, ⟨0, none, false⟩]
+example : (Pfst.SetPos.setPos (3, 12) none chain0).2 = [7, 6, 5, 2] ∧
+    ((Pfst.SetPos.setPos (3, 12) none chain0).1.map (·.pos)) = [some (3, 12), some (3, 12), some (3, 12), some (3, 12), none] := by
+  decide
+example : (Pfst.SetPos.setPos (3, 12) (some (3, 9))
+    [⟨7, some (3, 9), false⟩, ⟨6, some (3, 10), false⟩, ⟨5, some (3, 10), false⟩]).2 = [7] := by decide
 private def ptree : Node :=
   .mk 0 none none [ .mk 1 (some ⟨1,0,1,9⟩) none [ .mk 2 (some ⟨1,0,1,1⟩) none [], .mk 9 (some ⟨1,2,1,3⟩) none [], .mk 3 (some ⟨1,4,1,9⟩) none
     [ .mk 4 (some ⟨1,4,1,5⟩) none [], .mk 5 (some ⟨1,8,1,9⟩) none [] ] ],
